@@ -90,6 +90,9 @@ class StackRun(object):
         if k == "sleep":
             env.sleep(op[1])
             return
+        if k == "await":
+            env.await_(op[1], op[2] if len(op) > 2 else 2.0)
+            return
         if k == "shutdown":
             i = env.rec("op", "shutdown", op[1])
             self.ex.shutdown(op[1])
